@@ -341,14 +341,17 @@ def keyMember : KeySpec → Option Mid
   | .enum _ m => some m
   | .schema m => some m
 
+/-- loose mode: the value of a key the key schema rejects is not validated. -/
+def recSkip (env : Env) (ks : KeySpec) (loose : Bool) (k : V) : Bool :=
+  loose && (match keyMember ks with | some m => !acc env m k | none => false)
+
 /-- the first value (in entry order) rejected by the value schema ends validation with that
     member's issues (paths unchanged today; prefixed with the key after the patch). -/
 def recordValues (cfg : Cfg) (env : Env) (ks : KeySpec) (vm : Mid) (loose : Bool) :
     List (V × V) → Option (List Issue)
   | [] => none
   | (k, v) :: es =>
-    let skip := loose && (match keyMember ks with | some m => !acc env m k | none => false)
-    if skip then recordValues cfg env ks vm loose es
+    if recSkip env ks loose k then recordValues cfg env ks vm loose es
     else match env vm v with
       | .ok _ => recordValues cfg env ks vm loose es
       | .err i is => some ((i :: is).map (if cfg.recordKeyPath then prepend k.seg else id))
@@ -528,16 +531,18 @@ def mapsCompatible (a b : List (V × V)) : Bool :=
                   | none => true)
 
 def mergeable (a b : V) : Bool :=
-  if a == b then true
-  else match a, b with
-    | .nil, _ => true
-    | _, .nil => true
-    | .map k e (some x), .map k' e' (some y) => (k = k' && e = e') && mapsCompatible x y
-    | .map k e none, .map k' e' (some _) => k = k' && e = e'
-    | .map k e (some _), .map k' e' none => k = k' && e = e'
-    | .strct _ x, .strct _ y =>
-      mapsCompatible (x.map (fun f => (V.atom .str f.1, f.2))) (y.map (fun f => (V.atom .str f.1, f.2)))
-    | _, _ => false
+  match a, b with
+  | .nil, _ => true
+  | _, .nil => true
+  | a, b =>
+    if a == b then true
+    else match a, b with
+      | .map k e (some x), .map k' e' (some y) => (k = k' && e = e') && mapsCompatible x y
+      | .map k e none, .map k' e' (some _) => k = k' && e = e'
+      | .map k e (some _), .map k' e' none => k = k' && e = e'
+      | .strct _ x, .strct _ y =>
+        mapsCompatible (x.map (fun f => (V.atom .str f.1, f.2))) (y.map (fun f => (V.atom .str f.1, f.2)))
+      | _, _ => false
 
 def validateInter (cfg : Cfg) (env : Env) (l r : Mid) (v : V) : Res :=
   match mergeUnrec cfg (mresIssues (env l v)) (mresIssues (env r v)) with
